@@ -465,5 +465,7 @@ def run(ck: Checker) -> None:
     ck.guard("R-CHILD-KIND", lambda: r_child_kind(ck))
     from . import templates_rules as T
     ck.guard("R-TYPES-CACHE", lambda: T.r_types_cache(ck))
+    from . import state_rules as S
+    ck.guard("R-QUANTIFY-ALL", lambda: S.r_visited_key(ck, "R-QUANTIFY-ALL", ("pyoak.typing",)))  # every member of an annotation is judged, not the first of its kind
     ck.require_count("R-ONE-LANDING", 4)
     ck.require_count("R-CLASSIFY-SIBLING", 3)
